@@ -3,7 +3,7 @@
   stores, the effect of every keeper function on the per-chain id lists, and the ledger
   invariant with its preservation.  Used by Props/C04.lean and Props/C13.lean.
 -/
-import Mhub2.Step
+import Mhub2.Value
 import Lemmas.Bank
 set_option linter.unusedSimpArgs false
 namespace Mhub2
@@ -277,8 +277,6 @@ theorem sublist_flatMap {α β : Type} (f : α → List β) {l₁ l₂ : List α
 
 /-! ### Per-chain ledger: ids, invariant, step relation -/
 
-/-- All transfers of a chain that are somewhere: in the pool or in a batch. -/
-def ChainSt.entries (c : ChainSt) : List Ste := c.pool ++ c.batches.flatMap (·.txs)
 
 /-- Their ids. -/
 def ChainSt.ids (c : ChainSt) : List Nat :=
